@@ -194,7 +194,12 @@ pub fn build(name: &str, c: &mut Chooser) -> Value {
 		"DonchianChannel" => json!({"period": c.period(2, 254)}),
 		"EaseOfMovement" => json!({"ma": c.ma(2, 254).0, "period2": c.period(1, 254)}),
 		"EldersForceIndex" => json!({"ma": c.ma(2, 254).0, "period2": c.period(1, 254), "source": c.source()}),
-		"Envelopes" => json!({"ma": c.ma(2, 254).0, "k": c.float_pos(0.0, 0.9), "source": c.source(), "source2": c.source()}),
+		"Envelopes" => {
+			// k is only required to be positive: with k >= 1 the lower bound is zero or negative (seed S153)
+			let ma = c.ma(2, 254).0;
+			let k = if c.word() % 4 == 0 { c.float(1.0, 3.5) } else { c.float_pos(0.0, 0.9) };
+			json!({"ma": ma, "k": k, "source": c.source(), "source2": c.source()})
+		}
 		"FisherTransform" => json!({"period1": c.period(2, 254), "zone": c.float_pos(0.0, 3.0), "signal": c.ma(2, 254).0, "source": c.source()}),
 		"HullMovingAverage" => {
 			let (l, r) = lr(c);
